@@ -341,6 +341,22 @@ class _Run(object):
                     if key.startswith("$iter:") and g.nodes[int(key[6:])].ast is node.ast.iter:
                         itv = v
                 post[node.ast.target.id] = JSONV if (itv is not None and itv.types <= JSON | frozenset(["obj"])) else ANY
+            # iteration over a module-level constant (tuple of scalars / of equal-length tuples): element types are known
+            try:
+                cv = self.prog.const(self.fi.module, node.ast.iter) if isinstance(node.ast.iter, (ast.Name, ast.Attribute, ast.Tuple)) else None
+            except AnalysisError:
+                cv = None
+
+            def _tag(x):
+                return {str: "str", bool: "bool", int: "int", float: "float", type(None): "none", tuple: "tuple"}.get(type(x))
+            if isinstance(cv, tuple) and cv:
+                tgt = node.ast.target
+                if isinstance(tgt, ast.Name) and all(_tag(x) for x in cv):
+                    post[tgt.id] = AV(sorted(set(_tag(x) for x in cv)), nonempty=all(bool(x) for x in cv))
+                elif isinstance(tgt, ast.Tuple) and all(isinstance(e, ast.Name) for e in tgt.elts) and \
+                        all(isinstance(x, tuple) and len(x) == len(tgt.elts) and all(_tag(y) for y in x) for x in cv):
+                    for i_, e in enumerate(tgt.elts):
+                        post[e.id] = AV(sorted(set(_tag(x[i_]) for x in cv)), nonempty=all(bool(x[i_]) for x in cv))
         if post is not None and any(kk.startswith("self.") for kk in post) and k in ("stmt", "test", "iter", "with_enter") \
                 and getattr(self, "_heap_call", False):
             post = dict((kk, vv) for kk, vv in post.items() if not kk.startswith("self."))
@@ -559,6 +575,9 @@ class _Run(object):
 
     def unpack_ok(self, value_expr, n, st):
         """known-arity producers: who-may-put facts and tuple-returning stdlib calls"""
+        if isinstance(value_expr, ast.IfExp):
+            return all((isinstance(x, (ast.Tuple, ast.List)) and len(x.elts) == n and not any(isinstance(y, ast.Starred) for y in x.elts))
+                       or self.unpack_ok(x, n, st) for x in (value_expr.body, value_expr.orelse))
         if isinstance(value_expr, ast.Call):
             name = q.call_name(value_expr) if hasattr(q, "call_name") else None
             f = value_expr.func
